@@ -21,7 +21,7 @@ type aggLeaf struct {
 // structFieldLeaves: the values field f of the struct VALUE v may hold (flow-insensitive over local composite
 // temporaries, which are written before they are read).  ok is false when a source is not understood.
 func (p *Prog) structFieldLeaves(v ssa.Value, f int, depth int) ([]aggLeaf, bool) {
-	if depth > 6 {
+	if depth > 14 {
 		return aggFail(1)
 	}
 	switch x := v.(type) {
@@ -51,6 +51,27 @@ func (p *Prog) structFieldLeaves(v ssa.Value, f int, depth int) ([]aggLeaf, bool
 			ls, ok := p.structFieldLeaves(e.v, f, depth+1)
 			if !ok {
 				return aggFail(5)
+			}
+			out = append(out, ls...)
+		}
+		return out, len(out) > 0
+	case *ssa.Parameter:
+		// a struct handed in by value to an unexported function that is only ever called directly: what its call
+		// sites pass
+		fn := x.Parent()
+		sites, ok := p.staticCallSites(fn)
+		k := paramIndex(fn, x)
+		if !ok || len(sites) == 0 || k < 0 {
+			return aggFail(32)
+		}
+		var out []aggLeaf
+		for _, site := range sites {
+			if k >= len(site.Call.Args) {
+				return aggFail(33)
+			}
+			ls, ok := p.structFieldLeaves(site.Call.Args[k], f, depth+1)
+			if !ok {
+				return aggFail(34)
 			}
 			out = append(out, ls...)
 		}
